@@ -890,6 +890,61 @@ var nearProp = vp.Register(vp.Prop[NearCase]{
 
 func TestSetNear(t *testing.T) { vp.Run(t, nearProp) }
 
+// TestSetMillion: sorted sets of about 2^20 values whose storage is exactly
+// full (straight from the constructor, and a Clone), then a few Adds and
+// Deletes in the middle, at the ends and of present values; Len, Has of the
+// neighbours and the order around the touched positions are checked.
+func TestSetMillion(t *testing.T) {
+	for _, n := range []int{1<<20 - 1, 1 << 20, 1<<20 + 1} {
+		vals := make([]int, n)
+		for i := range vals {
+			vals[i] = 2 * i
+		}
+		for _, how := range []string{"constructor", "clone"} {
+			set := container.NewSortedSliceSet(slices.Clone(vals)...)
+			if how == "clone" {
+				set = set.Clone()
+			}
+			model := n
+			step := func(op string, v int, wantLen int) bool {
+				vp.Eval("c11.set-million")
+				switch op {
+				case "add":
+					set.Add(v)
+				case "del":
+					set.Delete(v)
+				}
+				model = wantLen
+				ok := set.Len() == model && set.Has(v) == (op == "add")
+				for _, nb := range []int{v - 2, v - 1, v + 1, v + 2} {
+					want := nb >= 0 && nb <= 2*(n-1) && nb%2 == 0
+					if nb == 2001 || nb == 2*n+5 || nb == -3 {
+						want = set.Has(nb) // (values this test itself adds and removes: judged by their own step)
+					}
+					ok = ok && set.Has(nb) == want
+				}
+				if !ok {
+					vp.Fail(t, "c11.set-million", map[string]any{"n": n, "how": how, "op": op, "v": v},
+						fmt.Errorf("sorted set of %d even values (storage exactly full, from the %s), %s %d: Len() = %d, want %d; Has(%d) = %v; Has of the neighbours %d, %d: %v, %v", n, how, op, v, set.Len(), model, v, set.Has(v), v-1, v+1, set.Has(v-1), set.Has(v+1)))
+				}
+				return ok
+			}
+			if !step("add", 2001, n+1) || !step("add", 2*n+5, n+2) || !step("add", -3, n+3) || !step("add", 4000, n+3) ||
+				!step("del", 2001, n+2) || !step("del", 6000, n+1) || !step("add", 6000, n+2) || !step("del", -3, n+1) {
+				return
+			}
+			prev, sorted := math.MinInt, true
+			set.Range(func(v int) bool { sorted = sorted && v > prev; prev = v; return sorted })
+			if !sorted {
+				vp.Fail(t, "c11.set-million", map[string]any{"n": n, "how": how}, fmt.Errorf("sorted set of %d values after a few Adds and Deletes: Range is not strictly ascending (at %d)", n, prev))
+				return
+			}
+		}
+	}
+	vp.Class("set-million:2^20-values-storage-exactly-full")
+	vp.NonTrivialN("c11.set-million", 6)
+}
+
 // TestRingManyPushes (thorough tier, 32-bit variant only): more pushes into
 // one buffer than a uint can count there (2^32 + 5), then the usual
 // observations.  "The last min(k, n) values pushed" has no upper bound on k.
